@@ -12,6 +12,7 @@ attribution of every failing string to its minimal failing subsequence), the sma
 generator, and the opcode-table check of the transpiler."""
 import itertools
 import os
+import zlib
 import re
 import shutil
 
@@ -92,10 +93,24 @@ def _finish(side, d):
     return side
 
 
+SPELL = [False]      # switched on by work_program for C04 only (byte-exact history layouts keep the plain spelling)
+
+
+def spelled(entry, text):
+    """The entry file is named on the command line as `x.ms` or (for every third program text) as `./x.ms`;
+    both pipelines of one program use the same spelling."""
+    if not SPELL[0] or text is None or "/" in entry:
+        return entry
+    if isinstance(text, str):
+        text = text.encode("utf-8", "replace")
+    return "./" + entry if zlib.crc32(text) % 3 == 0 else entry
+
+
 def pipeline_a(files, entry, cpu=10):
     d = core.case_dir("A")
     try:
         core.write_files(d, files)
+        entry = spelled(entry, files.get(entry))
         s = Side()
         r = _step(s, "run", core.ms("run", entry, "-q"), d, cpu, dump=True)
         s.rejected = r.cls != "ok" and _is_compile_reject(r)
@@ -107,6 +122,7 @@ def pipeline_a(files, entry, cpu=10):
 def b04_in(d, entry, cpu=10, keep_artefacts=False, inspect=None):
     """Pipeline B of C04 in directory d as it is (histories run several of these in one directory)."""
     s = Side()
+    entry = spelled(entry, _read(os.path.join(d, entry), binary=True))
     r = _step(s, "compile", core.ms("compile", entry, "--quick"), d, cpu)
     if r.cls != "ok":
         s.rejected = _is_compile_reject(r)
@@ -357,6 +373,17 @@ def stdout_is_nondeterministic(files, entry, first_out, cpu=10, tries=4):
 def work_program(item):
     """item = (prop, name, files, entry, single_module_only, avoid_kinds)."""
     prop, name, files, entry, single_only, avoid = item
+    # (corpus programs keep the plain spelling: `examples/crashes/main.ms` imports ITSELF, and which of its two
+    #  copies — entry `./main.ms`, import `main.ms` — is listed last is not the same in the two pipelines)
+    SPELL[0] = prop == "C04" and not str(name).startswith(("example:", "test:"))
+    try:
+        return _work_program(item)
+    finally:
+        SPELL[0] = False
+
+
+def _work_program(item):
+    prop, name, files, entry, single_only, avoid = item
     res = {"name": name, "status": None, "devs": [], "n_instr": 0, "n_fn": 0, "n_files": 0, "witness": None,
            "str_args": 0, "notes": []}
     a = pipeline_a(files, entry, cpu=5)
@@ -368,6 +395,16 @@ def work_program(item):
         return res
     if a.dump is None:
         # nothing was ever loaded: the compiler itself crashed (C16's subject) or the hook is silent
+        if a.res.cls != "ok" and prop == "C04":
+            # ... unless only `run` dies there: the same source through `compile` + `execute` may be fine
+            b = PIPE_B[prop](files, entry, 5, False, None)
+            if b.stage == "execute" and b.res.cls == "ok" and not b.rejected:
+                res["status"] = "compared"
+                res["exit"] = a.res.cls
+                res["devs"] = [("exit", "`run` dies before anything is loaded (%s: %s), `compile` + `execute` of the same "
+                                "source succeed" % (a.res.cls, _short((a.res.err or "").strip().split("\n")[-1] if a.res.err else "")))]
+                res["witness"] = {"files": files, "entry": entry, "run": a.res.brief(), "pipeline_B": b.res.brief()}
+                return res
         res["status"] = ("compiler_crash" if a.res.cls != "ok" else "inconclusive:H-DUMP silent under run")
         return res
     nfiles = len({k[0] for k in a.dump})
